@@ -89,7 +89,8 @@ PROPS = {
     "C12": {
         "lean_modules": ["RdestModel.Props.C12"],
         "cases": {"quick": 1500, "thorough": 60000},
-        "rule": "command histories (4..45 events, 1..4 peers, 3..14 pieces on both sides of END_GAME_LIMIT) on the real Session through the hooks: add "
+        "rule": "n/100 cases are closed-loop runs (`sys`, as in C01: real manager and real connection tasks, events produced by the tasks themselves, not "
+                "scripted); command histories (4..45 events, 1..4 peers, 3..14 pieces on both sides of END_GAME_LIMIT) on the real Session through the hooks: add "
                 "peer+bitfield, choke, unchoke, interested, not-interested, have, bitfield, piece done, piece cancel, kill — repeated and out of "
                 "order, but only events a connection task can emit (done/cancel need an active piece_rx, tracked from the replies; PrepareKill is "
                 "followed by the kill); after EVERY command reply + full snapshot (statuses; per peer piece_index, choked, am_interested, "
@@ -127,7 +128,14 @@ PROPS = {
     "C01": {
         "lean_modules": ["RdestModel.Props.C01"],
         "cases": {"quick": 400, "thorough": 12000},
-        "rule": "three cases are end-to-end downloads of the real session incl. extraction (the C02 scenario generator: every piece at exactly one peer, one slow peer, so a fast peer is dismissed while pieces are still Reserved), output files compared by SHA-1 with the content slices; scripts for the real connection task (in-memory stream, scratch working directory): assignments with correct and with deliberately wrong "
+        "rule": "n/16 cases are CLOSED-LOOP runs (`sys`): the real manager (commands handled one at a time as its event loop does) and 1..4 real connection tasks over "
+                "in-memory streams, connected by the real channels - replies are what handle_peer_cmd answers, not scripted; the harness plays the remote "
+                "peers (handshakes, bitfields, (un)chokes, interest, Haves, answers to the block requests the client really sent - in and out of order, "
+                "now and then corrupt - closes; a quarter are duels: one or two pieces, several peers with everything: end game, losers cancelled) and "
+                "records per event the commands handled with the reply that went back, statuses, peer records, frames written per connection, piece "
+                "files written; the driver replays the event on the joint model (hstep with the reply from mstep, Swarm/Loop) following the logged order of "
+                "manager commands, and first evaluates T6 on the implementation's own data (an owned piece has a file named by its listed hash holding data "
+                "with that hash); three cases are end-to-end downloads of the real session incl. extraction (the C02 scenario generator: every piece at exactly one peer, one slow peer, so a fast peer is dismissed while pieces are still Reserved), output files compared by SHA-1 with the content slices; scripts for the real connection task (in-memory stream, scratch working directory): assignments with correct and with deliberately wrong "
                 "listed hashes, blocks correct / corrupt / duplicated / overlapping / unrequested / mis-indexed / truncated, several pieces per "
                 "connection, cancellation by broadcast, disconnect at any point; observed: every *.piece file written (name, SHA-1 recomputed by the "
                 "harness, length), PieceDone commands, termination; monitor P01 on the implementation's and the model's trace; manager side by the "
